@@ -117,6 +117,12 @@ def boundary_cases():
                 yield dict(base, payload=b"\x01" * n, max=mx)
                 if n >= 8:
                     yield dict(base, payload=b"\x01" * (n - 8), anns={"ABCD": b""}, max=mx)
+    # the limit is a number like any other: nothing special happens at zero or below (every non-empty message is too large then)
+    for mx in (0, -1, -65536):
+        for n in (0, 1, 2, 50, 300):
+            for anns in ({}, {"ABCD": b""}, {"TEST": b"abc"}):
+                for comp in (False, True):
+                    yield dict(base, payload=b"\x07" * n, max=mx, anns=anns, compression=comp)
     import random
     rb = random.Random(12345)
     for mx in MAXES[:3]:
@@ -281,6 +287,9 @@ def run_roundtrip(env, f, rec, r):
     if got != exp:
         rec.violation("decode-mismatch", "recv_stub decoded %s, sent %s" % (core.short(got), core.short(exp)), ("rt", picklable(f)))
         return
+    if len(second) - 40 > f["max"]:
+        rec.count("followup_message_over_the_limit_skipped")      # (a limit at or below zero: the follow-up message itself is too large)
+        return
     try:
         m2 = P.recv_stub(conn)
         ok2 = (m2.type, m2.seq, bytes(m2.data), {k: bytes(v) for k, v in m2.annotations.items()}) == (5, (f["seq"] + 1) & 0xFFFF, second_body, {"SEC2": b"zz"})
@@ -412,7 +421,7 @@ def mutate(r, buf):
 
 
 def run_hostile(env, r, rec):
-    mx = r.choice([256, 1024, 1024 * 1024 * 1024])
+    mx = r.choice([256, 1024, 1024 * 1024 * 1024, 1024 * 1024 * 1024, 0, -1])
     if r.random() < 0.12:
         n = r.choice([0, 1, 3, 4, 5, 6, 39, 40, 41, 60])
         buf = bytes(r.randrange(256) for _ in range(n))
